@@ -128,4 +128,19 @@ def leeSigma (n : Nat) (P : Nat → α) (bottomRaw topRaw pi a q mix : α) (wnv 
 
 end
 
+/-! ### a contribution declared in an input file
+
+`taurex/parameter/factory.py: create_klass(config, klass, is_mixin)` — the route every `[[FlatMie]]`, `[[LeeMie]]`,
+`[[SimpleClouds]]` sub-section of an input file takes (`create_model` → `generate_contributions` → `create_klass`):
+the constructor's keywords with their defaults (`get_keywordarg_dict`), every keyword the section declares replaced by
+the declared value AS IT IS, every other keyword left at its default; a declared keyword the constructor does not have
+is a `KeyError` (`none`).  The rule is a function of the two lists only: what was created before plays no role. -/
+
+/-- keyword arguments handed to the constructor: `defaults` = the constructor's keywords (in signature order) with
+    their default values, `config` = the declared `key = value` pairs of the section -/
+def declaredArgs {β : Type} (defaults config : List (String × β)) : Option (List (String × β)) :=
+  if config.all (fun kv => (defaults.lookup kv.1).isSome) then
+    some (defaults.map (fun kd => (kd.1, (config.lookup kd.1).getD kd.2)))
+  else none
+
 end Taurex.Haze
